@@ -79,5 +79,9 @@ def gen(tier, rng):
     thorough = tier == "thorough"
     # node level: forged / mutated / misdirected handshake datagrams at a node in the states unknown sender, pending, established
     yield nodegen.c08_script(rng.fork("node"), "node-states", thorough)
+    # "accepts its routes and its payload only with a party that proved possession …": sealed datagrams under keys an outsider can choose
+    for c in ((1, 2, 3) if thorough else (3,)):
+        yield nodegen.forge_script(rng.fork("forge%d" % c), "node-forged-seals-%d" % c, c)
+    yield nodegen.forge_script(rng.fork("forge-rot"), "node-forged-seals-rotated", 1, after_rotation=True)
 
 obs_class, nontrivial_key = _nodecommon.with_node(obs_class, nontrivial_key)
